@@ -338,12 +338,34 @@ func (ex *Exec) builtin(fr *frame, b *ssa.Builtin, c *ssa.CallCommon, args []Val
 	case "append":
 		return g, ex.appendModel(args[0], args[1], c.Args[0].Type(), g, s)
 	case "copy":
-		ex.warn("copy() abstracted")
 		et := c.Args[0].Type().Underlying().(*types.Slice).Elem()
+		if isStruct(et) || sortOfSafe(c.Args[1].Type()) == SStr {
+			ex.warn("copy() of struct elements / from a string abstracted")
+			for _, lf := range leaves(et) {
+				key := "A$" + elemKey(et)
+				if len(lf.Path) > 0 {
+					key += "$" + strings.Join(lf.Path, ".")
+				}
+				u.keySort(key, arr2(sortOf(lf.Typ)))
+				u.havoc(s, key)
+			}
+			return g, intVal(u.freshConst("copied", SInt))
+		}
+		// Go spec: copies min(len(dst), len(src)) elements, as if through a temporary (memmove): the source cells are
+		// read before any destination cell is written, so overlapping slices are handled
+		srt := sortOf(et)
 		key := "A$" + elemKey(et)
-		u.keySort(key, arr2(sortOf(et)))
-		u.havoc(s, key)
-		return g, intVal(u.freshConst("copied", SInt))
+		u.keySort(key, arr2(srt))
+		A := u.get(s, key)
+		ds := u.define("copy.dst", SSlice, args[0].T)
+		ss := u.define("copy.src", SSlice, args[1].T)
+		n := u.define("copy.n", SInt, ite(app("<=", sLen(ds), sLen(ss)), sLen(ds), sLen(ss)))
+		j := "j!c"
+		body := ite(and(app("<=", sOff(ds), j), app("<", j, plus(sOff(ds), n))), sel(sel(A, sArr(ss)), cellIdx(sOff(ss), minus(j, sOff(ds)))), sel(sel(A, sArr(ds)), j))
+		row := u.defineArrayDual("copy.row", arr1(srt), fmt.Sprintf("(lambda ((%s Int)) %s)", j, body),
+			[]string{fmt.Sprintf("(forall ((%s Int)) (! (= (select $SELF %s) %s) :pattern ((select $SELF %s))))", j, j, body, j)})
+		u.set(s, key, arr2(srt), ite(app("<=", n, "0"), A, store(A, sArr(ds), row)))
+		return g, intVal(n)
 	case "delete":
 		ex.mapDelete(s, args[0], args[1])
 		return g, Val{}
